@@ -251,7 +251,7 @@ def _ss_pre(E):
                                z3.MultiPattern(C1.rev(x), C1.rev(y))]))
 
 
-from . import w_model_small as WMS  # noqa  Model.tolerance@setter: PROVED there (was an assumed contract here until round 5)
+from . import w_tolerance as WT  # noqa  Model.tolerance@setter: PROVED there (was an assumed contract here until round 5)
 _ss_cases = []
 for _ws in (True, False):
     _c = Case("with_solver" if _ws else "without_solver", ensures=_ss_post(_ws))
@@ -259,7 +259,6 @@ for _ws in (True, False):
     _ss_cases.append(_c)
 REG.add(Contract(MMOD, "Model.__setstate__", "C12", [("self", TObj("Model", {})), ("state", TRef("dict"))], _ss_cases,
                  pre=_ss_pre, key="Model.__setstate__",
-                 modifies=lambda E: [("heap", "_model"), ("heap", "var_lb"), ("heap", "var_ub"), ("obj", E["self"])]
-                 + [("heap", "tol_" + t) for t in WMS.TOLS],      # the solver's three tolerances are re-installed (proved setter)
+                 modifies=lambda E: [("heap", "_model"), ("heap", "var_lb"), ("heap", "var_ub"), ("obj", E["self"])],
                  loops={1: LoopSpec(_ss_inv_members, lambda E, Lc: [("heap", "_model")]),
                         2: LoopSpec(_ss_inv_bounds, lambda E, Lc: [("heap", "var_lb"), ("heap", "var_ub")])}))
